@@ -1,0 +1,90 @@
+//! Simulation seams, compiled only with `--cfg quantus_network_qp_zk_circuits_verif`.
+//!
+//! Everything here is inert unless a simulator has installed a thread-local
+//! observer/provider on the current thread: with nothing installed the
+//! notifier is a no-op and [`wrap_rng`] delegates every call to the generator
+//! the calling code created itself.
+
+use core::cell::RefCell;
+use rand::RngCore;
+
+thread_local! {
+    static VERIFY_OBSERVER: RefCell<Option<Box<dyn FnMut()>>> = const { RefCell::new(None) };
+    static RNG_PROVIDER: RefCell<Option<Box<dyn FnMut(&mut [u8])>>> = const { RefCell::new(None) };
+}
+
+/// Install (or clear) the observer called right before every pool admission
+/// verification on this thread.
+pub fn set_verify_observer(observer: Option<Box<dyn FnMut()>>) {
+    VERIFY_OBSERVER.with(|o| *o.borrow_mut() = observer);
+}
+
+/// Called by the pool right before it invokes the cryptographic verifier.
+pub fn notify_verify() {
+    VERIFY_OBSERVER.with(|o| {
+        if let Some(f) = o.borrow_mut().as_mut() {
+            f();
+        }
+    });
+}
+
+/// Install (or clear) the byte-stream provider that replaces process
+/// randomness at the wrapped sites on this thread.
+pub fn set_rng_provider(provider: Option<Box<dyn FnMut(&mut [u8])>>) {
+    RNG_PROVIDER.with(|p| *p.borrow_mut() = provider);
+}
+
+fn provider_fill(dest: &mut [u8]) -> bool {
+    RNG_PROVIDER.with(|p| match p.borrow_mut().as_mut() {
+        Some(f) => {
+            f(dest);
+            true
+        }
+        None => false,
+    })
+}
+
+/// Generator that draws from the installed provider, or else from the
+/// generator it wraps.
+pub struct WrappedRng<R: RngCore> {
+    inner: R,
+}
+
+/// Wrap the calling code's own generator (see module docs).
+pub fn wrap_rng<R: RngCore>(inner: R) -> WrappedRng<R> {
+    WrappedRng { inner }
+}
+
+impl<R: RngCore> RngCore for WrappedRng<R> {
+    fn next_u32(&mut self) -> u32 {
+        let mut b = [0u8; 4];
+        if provider_fill(&mut b) {
+            u32::from_le_bytes(b)
+        } else {
+            self.inner.next_u32()
+        }
+    }
+
+    fn next_u64(&mut self) -> u64 {
+        let mut b = [0u8; 8];
+        if provider_fill(&mut b) {
+            u64::from_le_bytes(b)
+        } else {
+            self.inner.next_u64()
+        }
+    }
+
+    fn fill_bytes(&mut self, dest: &mut [u8]) {
+        if !provider_fill(dest) {
+            self.inner.fill_bytes(dest)
+        }
+    }
+
+    fn try_fill_bytes(&mut self, dest: &mut [u8]) -> Result<(), rand::Error> {
+        if provider_fill(dest) {
+            Ok(())
+        } else {
+            self.inner.try_fill_bytes(dest)
+        }
+    }
+}
